@@ -80,8 +80,16 @@ class Report:
         extra["known_findings_reported"] = sorted(self.known)
         extra["violation_keys"] = sorted(self.violations)
         extra.update(self.repo)
-        path = evidence.write(self.prop, self.tier, self.seed, level, coverage, wall,
-                              len(self.violations), assumptions, extra)
+        try:
+            path = evidence.write(self.prop, self.tier, self.seed, level, coverage, wall,
+                                  len(self.violations), assumptions, extra)
+        except core.HarnessError as e:
+            # e.g. so many violations that fewer than two distinct cases were compared:
+            # an evidence file that does not validate must never mask the violations
+            if not self.violations:
+                raise
+            say(f"[{self.prop}] evidence not valid ({e}); violations stand")
+            path = "(invalid)"
         say(f"[{self.prop}] evidence -> {path}  wall={wall:.1f}s "
             f"violations={len(self.violations)} known={len(self.known)}")
         if self.violations:
